@@ -43,6 +43,19 @@ structure Th where
   token : Bool := false
   tokenVC : VV := VV.zero
   vc : VV := VV.zero
+  /-- thread-locals of this thread: key ↦ instance id -/
+  locals : List (Nat × Nat) := []
+  /-- progress inside a multi-step operation (`blockon`): see `step` -/
+  phase : Nat := 0
+deriving DecidableEq, Repr, Inhabited, Hashable
+
+/-- a scripted future of the DSL and the `block_on` that drives it -/
+structure Fut where
+  slot : Bool := false             -- a waker clone is registered (plain slot or `AtomicWaker`)
+  notified : Bool := false         -- the `block_on`'s notification flag
+  spurUsed : Bool := false         -- its one modelled spurious return has happened
+  wakers : Nat := 0                -- live references to the `block_on`'s waker
+  rel : VV := VV.zero              -- release clock of the notifications
 deriving DecidableEq, Repr, Inhabited, Hashable
 
 structure St where
@@ -68,6 +81,13 @@ structure St where
   arcs : List (Nat × VV)            -- (strong count, release clock)
   handles : List (Nat × Nat)        -- slot ↦ arc
   tracks : List (Nat × Bool)        -- slot ↦ dropped
+  tlsInits : List Nat := [0, 0]
+  tlsDrops : List Nat := [0, 0]
+  tlsObs : List Nat := [0, 0]
+  lazyInit : List Nat := [0, 0]     -- number of initialisations of each lazy static in this execution
+  lazyRel : List VV := [VV.zero, VV.zero]
+  lazyDropped : Bool := false       -- the main closure has returned
+  futs : List Fut := []
   verdict : Option Verdict := none  -- set when the execution has ended abnormally
 deriving DecidableEq, Repr, Inhabited, Hashable
 
@@ -85,7 +105,8 @@ def init (p : Prog) : St :=
     nRel := z c.nNotifies
     chan := List.replicate c.nChans [], chanRel := z c.nChans
     rxDropped := List.replicate c.nChans false, chanLeft := List.replicate c.nChans 0
-    arcs := [], handles := [], tracks := [] }
+    arcs := [], handles := [], tracks := []
+    futs := List.replicate c.nFutures {} }
 
 def St.th (s : St) (t : Nat) : Th := s.ths.getD t {}
 def St.modTh (s : St) (t : Nat) (f : Th → Th) : St := { s with ths := s.ths.modify t f }
@@ -138,6 +159,7 @@ def enabled (p : Prog) (s : St) (t : Nat) : Bool :=
       | .join b => (s.th b).finished
       | .await x v _ => s.atoms.getD x 0 == v
       | .recv q => !(s.chan.getD q []).isEmpty
+      | .blockOn f _ => h.phase != 4 || (s.futs.getD f {}).notified
       | _ => true
 
 def arcOf (s : St) (h : Nat) : Option Nat := s.handles.lookup h
@@ -163,7 +185,47 @@ def spurious (p : Prog) (s : St) (t : Nat) : List St :=
       if !(s.nSpurUsed.getD n true) then
         [(({ s with nSpurUsed := s.nSpurUsed.set n true }).tick t).ret t .unit]
       else []
+    | some (.blockOn f _) =>
+      -- the `Notify` inside `block_on` may return spuriously once: the future is polled again
+      if h.phase == 4 && !(s.futs.getD f {}).spurUsed then
+        [({ s with futs := s.futs.modify f fun u => { u with spurUsed := true } }).modTh t fun h =>
+          { h with phase := 1 }]
+      else []
     | _ => []
+
+/-- `LocalKey::with` by thread `t`: lazily initialised once per thread, private to it -/
+def tlsGet (s : St) (t k : Nat) : St × Nat :=
+  match (s.th t).locals.lookup k with
+  | some id => (s, id)
+  | none =>
+    let id := s.tlsInits.getD k 0 + 1
+    (({ s with tlsInits := s.tlsInits.set k id }).modTh t fun h => { h with locals := (k, id) :: h.locals }, id)
+
+def perms2 : List Nat → List (List Nat)
+  | [a, b] => [[a, b], [b, a]]
+  | l => [l]
+
+/-- thread end: the thread's thread-locals are destroyed (in any order), then it counts as
+finished (joinable); the main thread's end also ends the life of the lazy statics -/
+def finish (p : Prog) (s : St) (t : Nat) : List St :=
+  let live := ((s.th t).locals.map (·.1))
+  let live := [0, 1].filter fun k => live.contains k
+  let s := if t == 0 then { s with lazyDropped := true } else s
+  (perms2 live).map fun order =>
+    let s := order.foldl (fun s k =>
+      let s := { s with tlsDrops := s.tlsDrops.set k (s.tlsDrops.getD k 0 + 1) }
+      match p.cfg.tlsDtor with
+      | 1 => { s with atoms := s.atoms.set 0 (10 + k), atomRel := s.atomRel.set 0 VV.zero }
+      | 2 =>
+        -- the destructor touches the other key: destroyed (2) if this thread ever had it, else it is
+        -- initialised on the spot (1)
+        let other := 1 - k
+        if live.contains other then { s with tlsObs := s.tlsObs.set k 2 }
+        else
+          let (s, _) := tlsGet s t other
+          { s with tlsObs := s.tlsObs.set k 1 }
+      | _ => s) s
+    s.modTh t fun h => { h with finished := true }
 
 /-- successor states of a step of thread `t`; precondition: `enabled p s t` -/
 def step (p : Prog) (s : St) (t : Nat) : List St :=
@@ -177,7 +239,7 @@ def step (p : Prog) (s : St) (t : Nat) : List St :=
     [(s.modTh t fun h => { h with cvNotified := none }).ret t .unit]
   | none =>
   match opOf p s t with
-  | none => [s.modTh t fun h => { h with finished := true }]
+  | none => finish p s t
   | some op =>
     let s := match op with | .ifEq .. => s | _ => s.tick t
     match op with
@@ -361,7 +423,66 @@ def step (p : Prog) (s : St) (t : Nat) : List St :=
       [({ s with tracks := (k, false) :: s.tracks.filter (·.1 != k) }).ret t .unit]
     | .trackDrop k | .dealloc k =>
       [({ s with tracks := (k, true) :: s.tracks.filter (·.1 != k) }).ret t .unit]
-    | .tls _ | .tlsTry _ | .lazy _ => [s.stop (.misuse 9)]
+    | .tls k | .tlsTry k =>
+      let (s, id) := tlsGet s t k
+      [s.ret t (.val id)]
+    | .tlsNest k j =>
+      let (s, _) := tlsGet s t k
+      let (s, id) := tlsGet s t j
+      [s.ret t (.val id)]
+    | .tlsStat k => [s.ret t (.val (s.tlsInits.getD k 0 * 100 + s.tlsDrops.getD k 0))]
+    | .tlsObs k => [s.ret t (.val (s.tlsObs.getD k 0))]
+    | .lazyStat z => [s.ret t (.val (if s.lazyDropped then 0 else s.lazyInit.getD z 0))]
+    | .lazy z =>
+      if s.lazyDropped then [s.stop (.misuse 20)] else
+      -- first access initialises (once per execution) and publishes; every access acquires
+      let s := if s.lazyInit.getD z 0 == 0 then
+          { s with lazyInit := s.lazyInit.set z 1, lazyRel := s.lazyRel.set z (s.vc t) }
+        else s
+      let s := s.acquire t (s.lazyRel.getD z VV.zero)
+      [s.ret t (.val ((s.lazyInit.getD z 0 : Int) * 100 + 40 + z))]
+    | .blockOn f _ =>
+      let u := s.futs.getD f {}
+      let setF (s : St) (g : Fut → Fut) : St := { s with futs := s.futs.modify f g }
+      let readFlag (s : St) : St × Bool :=
+        ((s.acquire t (s.atomRel.getD f VV.zero)), s.atoms.getD f 0 == 1)
+      match h.phase with
+      | 0 => [(setF s fun u => { u with wakers := 1 }).modTh t fun h => { h with phase := 1 }]
+      | 1 =>
+        let (s, ready) := readFlag s
+        [s.modTh t fun h => { h with phase := if ready then 5 else 2 }]
+      | 2 =>
+        -- register a clone of the waker (an older registered clone is dropped)
+        [(setF s fun u => { u with slot := true, wakers := if u.slot then u.wakers else u.wakers + 1 }).modTh t
+          fun h => { h with phase := 3 }]
+      | 3 =>
+        let (s, ready) := readFlag s
+        [s.modTh t fun h => { h with phase := if ready then 5 else 4 }]
+      | 4 =>
+        -- woken: consume the notification and poll again
+        [((setF s fun u => { u with notified := false }).acquire t u.rel).modTh t fun h => { h with phase := 1 }]
+      | _ =>
+        -- ready: `block_on` returns; its own reference and a still registered clone are dropped
+        let s := setF s fun u => { u with slot := false, wakers := u.wakers - 1 - (if u.slot then 1 else 0) }
+        [(s.modTh t fun h => { h with phase := 0 }).ret t (.val 7)]
+    | .wake f | .awWake f =>
+      let s := { s with atoms := s.atoms.set f 1, atomRel := s.atomRel.set f (s.vc t) }
+      let u := s.futs.getD f {}
+      if u.slot then
+        [({ s with futs := s.futs.modify f fun u =>
+            { u with slot := false, notified := true, rel := u.rel.join (s.vc t), wakers := u.wakers - 1 } }).ret t .unit]
+      else [s.ret t .unit]
+    | .wakeRef f =>
+      let s := { s with atoms := s.atoms.set f 1, atomRel := s.atomRel.set f (s.vc t) }
+      let u := s.futs.getD f {}
+      if u.slot then
+        [({ s with futs := s.futs.modify f fun u => { u with notified := true, rel := u.rel.join (s.vc t) } }).ret t .unit]
+      else [s.ret t .unit]
+    | .dropWaker f =>
+      let u := s.futs.getD f {}
+      if u.slot then
+        [({ s with futs := s.futs.modify f fun u => { u with slot := false, wakers := u.wakers - 1 } }).ret t .unit]
+      else [s.ret t .unit]
     | .stop | .explore | .skip => [s.ret t .unit]
     | .panic => [s.stop .panic]
 
@@ -369,7 +490,7 @@ def step (p : Prog) (s : St) (t : Nat) : List St :=
 def allDone (s : St) : Bool := s.ths.all fun h => !h.started || h.finished
 
 def leaks (s : St) : Bool :=
-  s.arcs.any (·.1 != 0) || s.tracks.any (!·.2) || s.chan.any (!·.isEmpty) || s.chanLeft.any (· != 0)
+  s.futs.any (·.wakers != 0) || s.arcs.any (·.1 != 0) || s.tracks.any (!·.2) || s.chan.any (!·.isEmpty) || s.chanLeft.any (· != 0)
 
 /-- the verdict of a state in which no thread is enabled -/
 def finalVerdict (s : St) : Verdict :=
